@@ -114,7 +114,8 @@ def _run(case, loop, S, RPCSession, MessageSession, RSTransport, USTransport, Se
     in_loop(p.connection_made, t)
     s = p.session
     if kind == 'rpc' and case.get('out_limit'):
-        s._outgoing_concurrency.set_target(case['out_limit'])
+        # a session whose outgoing limit has adapted down to a small value (fresh limiter: set_target lowers lazily)
+        s._outgoing_concurrency = S.Concurrency(case['out_limit'])
     pm_task = p._process_messages_task
 
     # ---- observation from outside
